@@ -38,8 +38,8 @@ func init() {
 		L := 5
 		c.nCut, c.nFS, c.nCyc = 4000, 3000, 200
 		if tier == "thorough" {
-			L = 7
-			c.nCut, c.nFS, c.nCyc = 150000, 100000, 2000
+			L = 8
+			c.nCut, c.nFS, c.nCyc = 600000, 400000, 5000
 		}
 		// all names over the alphabet up to length L
 		var rec func(prefix string, left int)
